@@ -16,6 +16,8 @@ from concurrent.futures import ThreadPoolExecutor
 # accordingly (ml/c17_driver.ml argv[1]); the python oracle below always judges against the architecture, so as soon as
 # the known_findings lines are flipped to kind=fixed a returning defect is a VIOLATION with a concrete offset.
 T32_VARIANT = {"v": "pp"}    # first letter: B.W/BL/BLX packer, second: B<c>.W packer; p = pinned (defective), f = fixed
+X86_MEM_CHECKED = {"v": "u"}   # "c": (Mem, Imm) ALU forms refuse a qword destination with a non-int32 immediate (fixed tree), "u": pinned
+X86_OPS = ["add", "or", "adc", "sbb", "and", "sub", "xor", "cmp"]
 NLIST = [2, 7, 8, 9, 12, 14, 16, 19, 21, 24, 25, 26, 31, 32, 33, 48, 63, 64]
 
 M64 = (1 << 64) - 1
@@ -175,6 +177,57 @@ def ubfm_pseudocode(size, immr, imms, src):
     return rot & wmask & tmask
 
 
+def bfm_class_pseudocode(kind, size, immr, imms, dst, src):
+    """BFM / SBFM / UBFM per the ARM ARM pseudo-code (python transcription, independent of the Coq one)."""
+    n = 1 if size == 64 else 0
+    x = (n << 6) | ((~imms) & 0x3F)
+    ln = x.bit_length() - 1
+    if ln < 1 or (1 << ln) > size:
+        return None
+    levels = (1 << ln) - 1
+    s_ = imms & levels; r_ = immr & levels
+    esize = 1 << ln
+    d = (s_ - r_) & levels
+    welem = (1 << (s_ + 1)) - 1; telem = (1 << (d + 1)) - 1
+    em = (1 << esize) - 1
+    wrot = ((welem >> r_) | (welem << (esize - r_))) & em if r_ else welem
+    wmask = 0; tmask = 0
+    for i in range(size // esize):
+        wmask |= wrot << (i * esize); tmask |= telem << (i * esize)
+    m = (1 << size) - 1
+    rr = immr % size
+    rot = ((src >> rr) | (src << (size - rr))) & m if rr else src
+    if kind == "u":
+        return rot & wmask & tmask
+    if kind == "s":
+        top = m if (src >> imms) & 1 else 0
+        return (top & ~tmask & m) | (rot & wmask & tmask)
+    bot = (dst & ~wmask & m) | (rot & wmask)
+    return (dst & ~tmask & m) | (bot & tmask)
+
+
+def cross_validate_pseudocode(ck, model, rng, n):
+    """The two hand transcriptions of the BFM-class pseudo-code (Coq BfmSemModel.v, extracted; python above) on the same inputs."""
+    cmds = []
+    for _ in range(n):
+        size = rng.choice((32, 64))
+        kind = rng.choice("usb")
+        immr = rng.randrange(size); imms = rng.randrange(size)
+        pick = lambda: rng.choice((0, (1 << size) - 1, rng.getrandbits(size), 1 << rng.randrange(size)))
+        cmds.append("Z %s %d %d %d %d %d" % (kind, size, immr, imms, pick(), pick()))
+    out = vlib.sh(model_cmd(model), inp="\n".join(cmds) + "\n", timeout=300)[1].split("\n")
+    bad = 0
+    for c, o in zip(cmds, out):
+        t = c.split()
+        want = bfm_class_pseudocode(t[1], int(t[2]), int(t[3]), int(t[4]), int(t[5]), int(t[6]))
+        if o != "Z %s" % ("-" if want is None else want):
+            bad += 1
+            if bad <= 3:
+                ck.violation("C17/oracle/bfm-pseudocode-transcriptions-differ", "%s: Coq transcription says %r, python transcription says %s" % (c, o, want),
+                             {"command": c, "model": o, "python": want, "broken": "BfmSemModel.v vs tools/checks/c17.py bfm_class_pseudocode"}, no_input=True)
+    return len(cmds), bad
+
+
 BF_NAMES = ["bfxil", "sbfx", "ubfx", "bfi", "sbfiz", "ubfiz", "bfc", "bfm", "sbfm", "ubfm", "lsl", "lsr", "asr"]
 
 
@@ -224,24 +277,38 @@ KNOWN_BAD_TYPES = {"t32_b": "C17/thumb32-b-j1-at-bit14", "t32_blx": "C17/thumb32
 def gen_stream(rng, tier):
     cmds = ["T"]
     fmts = USED_FORMATS + OTHER_FORMATS
-    # R: range sweeps (summary hash) — the whole in-range interval plus a band outside when the field is small
-    rmax = 1 << (21 if tier == "quick" else 27)
+    # R: range sweeps (summary hash) — the whole in-range interval plus a band outside when the field is small; for large
+    # fields dense windows centred on BOTH limits and on 0 plus a strided pass.  Every R is cut into pieces of <= RPIECE
+    # evaluations so that the 16 shards are balanced (the extracted model does ~25k write_offset/s per process).
+    quick = tier == "quick"
+    rmax = 1 << (17 if quick else 27)
+    win = 8192 if quick else 100000
+    RPIECE = 16384 if quick else (1 << 20)
+
+    def emit_r(ty, vs, bits, sh, dl, lo, cnt, step, old):
+        i = 0
+        while i < cnt:
+            n = min(RPIECE, cnt - i)
+            cmds.append("R %d %d %d %d %d %d %d %d %d" % (ty, vs, bits, sh, dl, sext(lo + i * step, 64), n, step, old))
+            i += n
     for (nm, ty, vs, bits, sh, dl) in fmts:
         if bits == 0 or bits > 8 * vs or vs == 3:
-            cmds.append("R %d %d %d %d %d %d %d %d %d" % (ty, vs, bits, sh, dl, -1000, 2000, 1, 0))
+            emit_r(ty, vs, bits, sh, dl, -1000, 2000, 1, 0)
             continue
         span = (1 << min(bits, 40)) << dl
         lo = -span - (4096 << dl)
         cnt = 2 * span + (8192 << dl)
         step = 1
         if cnt > rmax:
-            # stratify: dense windows at the limits + strided interior
-            for centre in (-(span >> (0 if TYN[ty] != "signed" and TYN[ty] not in ("adr", "adrp", "a32_blx") else 1)),
-                           (span >> (0 if TYN[ty] != "signed" and TYN[ty] not in ("adr", "adrp", "a32_blx") else 1)), 0):
-                cmds.append("R %d %d %d %d %d %d %d %d %d" % (ty, vs, bits, sh, dl, centre - 50000, 100000, 1, rng.getrandbits(8 * min(vs, 8)) & ~field_mask(ty, vs, bits, sh)))
-            step = (cnt // (rmax // 4)) | 1
-            cnt = rmax // 4
-        cmds.append("R %d %d %d %d %d %d %d %d %d" % (ty, vs, bits, sh, dl, lo, cnt, step, 0))
+            # stratify: dense windows at the limits (+-win/2 offsets around +-limit, whatever the discard) + strided interior
+            half = TYN[ty] in ("signed", "adr", "adrp", "a32_blx", "t32_b", "t32_blx", "t32_bcond")
+            for centre in (-(span >> (1 if half else 0)), (span >> (1 if half else 0)), 0):
+                emit_r(ty, vs, bits, sh, dl, centre - win // 2, win, 1, rng.getrandbits(8 * min(vs, 8)) & ~field_mask(ty, vs, bits, sh))
+                if dl:   # also one window in units of 2^discard (every accepted neighbour of the limit)
+                    emit_r(ty, vs, bits, sh, dl, centre - ((win // 8) << dl), win // 4, 1 << dl, 0)
+            step = (cnt // (rmax // 2)) | 1
+            cnt = rmax // 2
+        emit_r(ty, vs, bits, sh, dl, lo, cnt, step, 0)
     # V: single values judged by the oracle (limits, misaligned, random, random old bits outside the field)
     nv = 300 if tier == "quick" else 6000
     for (nm, ty, vs, bits, sh, dl) in fmts:
@@ -335,6 +402,26 @@ def gen_stream(rng, tier):
                         cmds.append("X %d %d %d %d" % (kind, x, a, b))
             for (a, b) in ((1 << 32, 1), (1, 1 << 32), ((1 << 32) + 1, 1), (1, (1 << 32) + 1), (M64, M64), (0, M64)):
                 cmds.append("X %d %d %d %d" % (kind, x, a, b))
+    # Y: x86 ALU group r/m, imm through the real x86::Assembler, at the int8 / int16 / int32 / uint32 limits (both signs)
+    ypts = set()
+    for base in (0, 1 << 7, -(1 << 7), 1 << 8, 1 << 15, -(1 << 15), 1 << 16, 1 << 31, -(1 << 31), 1 << 32, -(1 << 32), (1 << 63) - 1, -(1 << 63),
+                 0xFFFFFF80, 0xFFFF8000, 0xFF80, 0xFFFFFFFF, 0x7FFFFFFF):
+        for d in (-2, -1, 0, 1, 2):
+            if -(1 << 63) <= base + d < (1 << 63):
+                ypts.add(base + d)
+    for _ in range(40 if tier == "quick" else 2000):
+        k = rng.randrange(1, 65)
+        ypts.add(sext(rng.getrandbits(k), k))
+    for imm in sorted(ypts):
+        for op in range(8):
+            for size in (1, 2, 4, 8):
+                for acc in (0, 1):
+                    for (optsize, longform) in ((0, 0), (1, 0), (0, 1)):
+                        if optsize and not (op == 4 and size == 8):
+                            continue
+                        cmds.append("Y %d 0 %d %d %d %d %d" % (op, size, acc, optsize, longform, imm))
+                for longform in (0, 1):
+                    cmds.append("Y %d 1 %d 0 0 %d %d" % (op, size, longform, imm))
     # E: is_encodable_offset_32/64 at exactly the limits of every bit count (both signs, +-2 around), plus random
     for w in (32, 64):
         for nb in range(1, w + 1):
@@ -560,6 +647,36 @@ def judge(cmd, ans, logical_sets):
             if got != want:
                 return ("C17/bitfield/wrong-fields", "%s (%s) -> immr=%d imms=%d: UBFM of %#x gives %s, the alias means %#x" % (cmd, nm, immr, imms, src, None if got is None else hex(got), want))
         return None
+    if c[0] == "Y":
+        op, form, size, acc, optsize, longform, imm = map(int, c[1:8])
+        ok, has66, rexw, short, opc, immsize, field = map(int, a[1:8])
+        nm = "%s %s, %d" % (X86_OPS[op], ("acc" if acc else "reg") + str(8 * size) if form == 0 else "m%d" % (8 * size), imm)
+        int32 = -(1 << 31) <= imm < (1 << 31)
+        and32 = op == 4 and form == 0 and 0 <= imm < (1 << 32)
+        if not ok:
+            if size < 8 or int32 or and32:
+                return ("C17/x86-arith/spurious-refusal", "%s (%s) refused although an encoding exists" % (cmd, nm))
+            return None
+        opsize = 8 if rexw else (2 if has66 else (1 if (opc == 0x80 or (short and opc & 1 == 0)) else 4))
+        if opsize != size and not (size == 8 and opsize == 4 and and32):
+            return ("C17/x86-arith/operand-size", "%s (%s) -> operand size %d" % (cmd, nm, opsize))
+        if short:
+            if not acc or form != 0 or opc != op * 8 + (4 if size == 1 else 5) or longform:
+                return ("C17/x86-arith/short-form", "%s (%s) -> opcode %#x" % (cmd, nm, opc))
+            want_sizes = (min(opsize, 4),)
+        else:
+            if opc not in (0x80, 0x81, 0x83) or (opc == 0x80) != (opsize == 1):
+                return ("C17/x86-arith/opcode", "%s (%s) -> opcode %#x" % (cmd, nm, opc))
+            want_sizes = (1,) if opc in (0x80, 0x83) else (min(opsize, 4),)
+        if immsize not in want_sizes:
+            return ("C17/x86-arith/imm-size", "%s (%s) -> opcode %#x with %d immediate bytes" % (cmd, nm, opc, immsize))
+        eff = sext(field, 8 * immsize) & ((1 << (8 * opsize)) - 1)      # SDM: imm8/imm32 sign-extended to the operand size
+        if eff != imm & ((1 << (8 * opsize)) - 1) or (size == 8 and opsize == 8 and not int32):
+            key = "C17/x86-arith/mem64-imm-truncated" if form == 1 and size == 8 and not int32 else "C17/x86-arith/wrong-immediate"
+            return (key, "%s (%s) -> opcode %#x imm%d = %#x: the CPU adds %#x, not %#x" % (cmd, nm, opc, 8 * immsize, field, eff, imm & ((1 << (8 * opsize)) - 1)))
+        if not longform and not short and immsize != 1 and opsize > 1 and opsize == size and -128 <= (sext(imm, 32) if opsize == 4 else imm) < 128:
+            return ("C17/x86-arith/imm8-not-used", "%s (%s) -> imm%d although imm8 suffices" % (cmd, nm, 8 * immsize))
+        return None
     if c[0] == "E":
         w, off, nb = int(c[1]), int(c[2]), int(c[3]); ok = int(a[1])
         exp = -(1 << (nb - 1)) <= off < (1 << (nb - 1))
@@ -585,7 +702,13 @@ def judge(cmd, ans, logical_sets):
 
 
 def model_cmd(model):
-    return [model, T32_VARIANT["v"]]
+    return [model, T32_VARIANT["v"], X86_MEM_CHECKED["v"]]
+
+
+def probe_x86_mem(impl):
+    """Does `add qword ptr [rcx], 0x100000000` get refused (fixed) or truncated to imm32 = 0 (pinned)?"""
+    out = vlib.sh([impl], inp="Y 0 1 8 0 0 0 4294967296\n")[1].split()
+    return "c" if out[:2] == ["Y", "0"] else "u"
 
 
 def run_pair(ck, impl, model, cmds, shards=16):
@@ -599,9 +722,11 @@ def run_pair(ck, impl, model, cmds, shards=16):
         if rc != 0 or len(lines) != len(chunk) or "GUARD-BROKEN" in out:
             return ("ERR", rc, (out[-500:] + err[-500:]))
         return lines
-    with ThreadPoolExecutor(max_workers=shards) as ex:
-        ri = list(ex.map(one, [(impl, c) for c in chunks]))
-        rm = list(ex.map(one, [(model_cmd(model), c) for c in chunks]))
+    with ThreadPoolExecutor(max_workers=2 * shards) as ex:
+        fi = [ex.submit(one, (impl, c)) for c in chunks]
+        fm = [ex.submit(one, (model_cmd(model), c)) for c in chunks]
+        ri = [f.result() for f in fi]
+        rm = [f.result() for f in fm]
 
     def merge(rs):
         out = [None] * len(cmds)
@@ -645,7 +770,8 @@ def run(ck):
     model = ck.ocaml_model("Extract_Codec.v", ["zconv.ml", "c17_driver.ml"], name="c17")
     logical_sets = {32: all_logical(32), 64: all_logical(64)}
     T32_VARIANT["v"] = probe_t32(impl)
-    ck.log("Thumb-2 branch packers of the tree: %s" % T32_VARIANT["v"])
+    X86_MEM_CHECKED["v"] = probe_x86_mem(impl)
+    ck.log("Thumb-2 branch packers of the tree: %s; x86 ALU (Mem, Imm) qword int32 test: %s" % (T32_VARIANT["v"], {"c": "present", "u": "absent"}[X86_MEM_CHECKED["v"]]))
 
     if ck.replay:
         import json
@@ -683,6 +809,7 @@ def run(ck):
                              {"command": c, "impl": o, "llvm_mc_field": w})
             elif a[:2] != ["V", "1"]:
                 ck.violation("C17/%s/spurious-refusal" % t, "%s refused, llvm-mc encodes it as %#x" % (c, w), {"command": c, "impl": o})
+    n_z, bad_z = cross_validate_pseudocode(ck, model, rng, 3000 if ck.tier == "quick" else 100000)
     ri, rm = run_pair(ck, impl, model, cmds)
     if isinstance(ri, tuple) or isinstance(rm, tuple):
         bad = ri if isinstance(ri, tuple) else rm
@@ -731,14 +858,15 @@ def run(ck):
     return ck.finish(
         "proof",
         {"evaluations": evaluations, "distinct_nontrivial": len(nontrivial),
-         "rule": "commands T/R/V/L/A/F/B/I/M/H/X/E/N generated from VERIF_SEED (ranges enumerate whole fields up to 2^21 (quick) / 2^27 (thorough) offsets per format, "
+         "rule": "commands T/R/V/L/A/F/B/I/M/H/X/Y/E/N generated from VERIF_SEED (ranges enumerate whole fields up to 2^17 offsets (quick; larger fields: dense 8192-offset windows at both limits and 0, a window in discard units, and a strided pass) / 2^27 (thorough) offsets per format, "
                  "dense at the limits; all logical-immediate values, all fp8, all A32 immediates, all 81 half-word classes); a case is non-trivial when the "
                  "encoder accepted at least one value of it (distinct command lines counted)",
          "samples": samples, "commands_by_kind": kinds, "single_cases_judged_by_oracle": n_single,
          "traces_validated_against_impl": len(cmds), "model_vs_impl_disagreements": disagreements,
          "formats": [f[0] for f in USED_FORMATS + OTHER_FORMATS],
          "limit_cases_present": lim_counters, "limit_cases_total": len(lim_counters), "limit_cases_missing": len(lim_missing),
-         "t32_variant_of_tree": T32_VARIANT["v"], "llvm_mc_t32_reference_cases": n_ref, "llvm_mc_t32_reference_errors": len(ref_errors)},
+         "t32_variant_of_tree": T32_VARIANT["v"], "x86_mem_imm64_test_of_tree": X86_MEM_CHECKED["v"],
+         "bfm_pseudocode_cross_validation_cases": n_z, "bfm_pseudocode_cross_validation_mismatches": bad_z, "llvm_mc_t32_reference_cases": n_ref, "llvm_mc_t32_reference_errors": len(ref_errors)},
         assumptions=["the C++ harness calls the real functions of /repo's working tree (CodeWriterUtils::write_offset, arm::Utils::*, "
                      "a64 encode_mov_sequence_*/encode_lmh via #include of a64assembler.cpp)",
                      "theorems are about the Gallina model; the model is tied to the code by the differential run of this check",
